@@ -77,7 +77,7 @@ func (in *Interp) callFn(st *State, fr *Frame, instr ssa.Value, cc *ssa.CallComm
 		}
 	}
 	if sm, ok := in.Cfg.Summaries[name]; ok {
-		return one(sm(args))
+		return one(sm(in, st, args))
 	}
 	if m, ok := in.Cfg.Intercept[name]; ok {
 		return m(in, st, cc, args)
